@@ -439,20 +439,7 @@ class InstrMixin:
                 self.assume_facts(v, et)
                 okv = T.TRUE
                 self.setreg(ctx, ins, v)
-            rs = self.recvspecs.get(x) if is_term(x) else None
-            if rs is not None:
-                # assumed facts about what the channel carries (the senders' contracts)
-                argn = (rs.args or ['m'])[0]
-                names = dict(self.base_names)
-                names[argn] = (v, vt)
-                from .exec_expr import Env
-                env = Env(names, st, self.entry_state, self.cellnames_for(ctx, ctx.get('block')), self.pkg)
-                for c in rs.ensures:
-                    try:
-                        self.add_hyp(T.implies(T.and_(st.pc, okv), self.eval_bool(c.parse(), env)))
-                    except Unsupported as e:
-                        self.elab_fail('recv clause %r: %s' % (c.text, e))
-                self.assumed_used.add('channel contents %s in %s (the senders\' send contracts)' % (rs.name, self.oname))
+            self.on_recv(ctx, st, x, v, vt, okv, T.TRUE)
             self.sync_point(st)
             return
         raise Unsupported('unop %s' % tok)
@@ -737,16 +724,56 @@ class InstrMixin:
                 v = self.ty.symbolic(et, 'selrecv')
                 self.assume_facts(v, et)
                 items.append(v)
+        k_ = 2
         for j, s_ in enumerate(ins['states']):
             if s_['dir'] == 'send':
                 self.on_send(ctx, ins, st, self.val(ctx, s_['chan']), self.val(ctx, s_['send']), guard=T.eq(idx, T.I(j)))
+            else:
+                et = self.ty.elem(s_['chantype'])
+                self.on_recv(ctx, st, self.val(ctx, s_['chan']), items[k_], et, items[1], T.eq(idx, T.I(j)))
+                k_ += 1
         self.setreg(ctx, ins, TupleV(items))
 
     def i_Send(self, ctx, ins, st):
         self.on_send(ctx, ins, st, self.val(ctx, ins['chan']), self.val(ctx, ins['x']), guard=T.TRUE)
 
+    def on_recv(self, ctx, st, ch, v, vt, okv, guard):
+        """recv clause of the channel: ghost bookkeeping (modifies) + ASSUMED facts about what the channel carries
+        (the senders' contracts).  `ok` is visible to the clauses (false = channel closed)."""
+        rs = self.chanspec(self.recvspecs, ctx, st, ch)
+        if rs is None:
+            return
+        from .exec_expr import Env
+        argn = (rs.args or ['m'])[0]
+        names = dict(self.base_names)
+        names[argn] = (v, vt)
+        names['ok'] = (okv, None)
+        cn = self.cellnames_for(ctx, ctx.get('block'))
+
+        def apply(s_):
+            pre = s_.copy()
+            if rs.modifies:
+                self.havoc_locs(rs.modifies, Env(names, s_, self.entry_state, cn, self.pkg), s_)
+            env = Env(names, s_, pre, cn, self.pkg)
+            for c in rs.ensures:
+                try:
+                    self.add_hyp(T.implies(s_.pc, self.eval_bool(c.parse(), env)))
+                except Unsupported as e:
+                    self.elab_fail('recv clause %r: %s' % (c.text, e))
+        if guard == T.TRUE:
+            apply(st)
+        else:
+            s1 = st.copy()
+            s1.pc = T.and_(st.pc, guard)
+            apply(s1)
+            s2 = st.copy()
+            s2.pc = T.and_(st.pc, T.not_(guard))
+            m, _ = self.merge([(0, s1), (1, s2)])
+            st.pc, st.cells, st.heap, st.volatile = m.pc, m.cells, m.heap, m.volatile
+        self.assumed_used.add('channel contents %s in %s (the senders\' send contracts)' % (rs.name, self.oname))
+
     def on_send(self, ctx, ins, st, ch, v, guard):
-        ps = self.chanspecs.get(ch) if is_term(ch) else None
+        ps = self.chanspec(self.chanspecs, ctx, st, ch)
         if ps is None:
             return
         et = None
@@ -755,7 +782,9 @@ class InstrMixin:
         if ins['op'] == 'Send':
             ct = None
         names = {argn: (v, self.chan_elem_type(ctx, ins, ch))}
-        if guard == T.TRUE:
+        if guard == T.TRUE or 'on-offer' in ps.flags:
+            # `flag on-offer`: the clauses describe the OFFER of a value in a select (checked and counted whether or
+            # not this case is the one that fires)
             self.apply_contract_env(ctx, ins, st, ps, names, [], [], ps.name)
         else:
             s1 = st.copy()
